@@ -20,4 +20,4 @@ class NodeRetryPolicy(RetryPolicyLike):
 
     @property
     def exceptions(self) -> Tuple[Type[Exception], ...]:
-        return self.node.exceptions or (Exception,)
+        return (Exception,) if self.node.exceptions is None else self.node.exceptions
